@@ -6,8 +6,10 @@
             bonded parameters, nrexcl); ShapeTab[shape][c] = [name, resname, resid] of canonical atom c
      order  the node (insertion) order of the graph, a sequence of canonical atom numbers
      aid    aid[c] = 'atomid' attribute of canonical atom c, NOAID when it has none
-   Actions, in the order of the command line:  Name(dedup)  ->  SortAtoms | SkipSort  ->  WritePDB  ->  WriteTop.
+   Actions, in the order of the command line:  Name(dedup)  ->  SortAtoms | SkipSort  ->  WritePDB  ->  WriteGRO  ->  WriteTop.
    Abstract files:  pdb  = per molecule the sequence of [name, resname, resid] coordinate records,
+                    gro  = the coordinate records of the GRO file of the same system: ONE flat sequence (the format has no
+                           molecule delimiter),
                     itps = sequence of [name, src, atoms, bonds] (one per file written; src = molecule it was written from;
                            bonds = the shape's bonds as index pairs),
                     top  = [includes |-> names in #include order, molecules |-> <<[name, n], ...>>].
@@ -26,8 +28,8 @@ INF   == 1073741824
 Range(s) == {s[i] : i \in DOMAIN s}
 Min(S) == CHOOSE x \in S : \A y \in S : x <= y
 
-VARIABLES sys, dedup, pc, mols, ids, sorted, pdb, itps, top
-vars == <<sys, dedup, pc, mols, ids, sorted, pdb, itps, top>>
+VARIABLES sys, dedup, pc, mols, ids, sorted, pdb, gro, itps, top
+vars == <<sys, dedup, pc, mols, ids, sorted, pdb, gro, itps, top>>
 
 RECURSIVE SeqsUpTo(_, _)
 SeqsUpTo(S, n) == IF n = 0 THEN {<<>>}
@@ -38,7 +40,7 @@ NoTop == [includes |-> <<>>, molecules |-> <<>>]
 Init == /\ sys \in SeqsUpTo(Universe, MaxMols) \ {<<>>}
         /\ dedup \in BOOLEAN
         /\ pc = "name" /\ mols = sys /\ ids = <<>> /\ sorted = FALSE
-        /\ pdb = <<>> /\ itps = <<>> /\ top = NoTop
+        /\ pdb = <<>> /\ gro = <<>> /\ itps = <<>> /\ top = NoTop
 
 -----------------------------------------------------------------------------
 (* NameMolType *)
@@ -64,7 +66,7 @@ NameDecl(ms, dd) == IF dd THEN [j \in DOMAIN ms |-> Cardinality({FirstOcc(ms, i)
 Name == /\ pc = "name"
         /\ ids' = NameOp(mols, dedup)
         /\ pc' = "sort"
-        /\ UNCHANGED <<sys, dedup, mols, sorted, pdb, itps, top>>
+        /\ UNCHANGED <<sys, dedup, mols, sorted, pdb, gro, itps, top>>
 
 Names == [j \in DOMAIN ids |-> NameStr[ids[j] + 1]]
 
@@ -88,13 +90,14 @@ SortAtoms == /\ pc = "sort"
              /\ mols' = [j \in DOMAIN mols |-> [mols[j] EXCEPT !.order = SortKey(mols[j], Len(mols[j].order))]]
              /\ sorted' = TRUE
              /\ pc' = "pdb"
-             /\ UNCHANGED <<sys, dedup, ids, pdb, itps, top>>
+             /\ UNCHANGED <<sys, dedup, ids, pdb, gro, itps, top>>
 SkipSort == /\ pc = "sort"
             /\ pc' = "pdb"
-            /\ UNCHANGED <<sys, dedup, mols, ids, sorted, pdb, itps, top>>
+            /\ UNCHANGED <<sys, dedup, mols, ids, sorted, pdb, gro, itps, top>>
 
 -----------------------------------------------------------------------------
-(* writers: both iterate Molecule.sorted_nodes = stable sort of the node order by atom id, missing = +inf *)
+(* writers: all three (ITP, PDB, GRO) iterate Molecule.sorted_nodes = stable sort of the node order by atom id,
+   missing = +inf *)
 
 AidV(mol, c) == IF mol.aid[c] = NOAID THEN INF ELSE mol.aid[c]
 RECURSIVE InsertAid(_, _, _)
@@ -112,8 +115,16 @@ BondLines(mol) == {<<PosOf(mol, b[1]), PosOf(mol, b[2])>> :
 
 WritePDB == /\ pc = "pdb"
             /\ pdb' = [j \in DOMAIN mols |-> AtomLines(mols[j])]
+            /\ pc' = "gro"
+            /\ UNCHANGED <<sys, dedup, mols, ids, sorted, gro, itps, top>>
+
+RECURSIVE ConcatAll(_)
+ConcatAll(ss) == IF ss = <<>> THEN <<>> ELSE Head(ss) \o ConcatAll(Tail(ss))
+\* gro.write_gro: molecule after molecule, atoms in written (atom id) order, no delimiter
+WriteGRO == /\ pc = "gro"
+            /\ gro' = ConcatAll([j \in DOMAIN mols |-> AtomLines(mols[j])])
             /\ pc' = "top"
-            /\ UNCHANGED <<sys, dedup, mols, ids, sorted, itps, top>>
+            /\ UNCHANGED <<sys, dedup, mols, ids, sorted, pdb, itps, top>>
 
 \* write_gmx_topology: groupby on successive names; ITP written from the first molecule of the first group of a name;
 \* one [ molecules ] line per group; includes = names of the groups, each once, in order of first appearance
@@ -139,9 +150,9 @@ WriteTop == /\ pc = "top"
                IN /\ itps' = t.files
                   /\ top' = [includes |-> Uniq([i \in DOMAIN t.count |-> t.count[i].name], {}), molecules |-> t.count]
             /\ pc' = "done"
-            /\ UNCHANGED <<sys, dedup, mols, ids, sorted, pdb>>
+            /\ UNCHANGED <<sys, dedup, mols, ids, sorted, pdb, gro>>
 
-Next == Name \/ SortAtoms \/ SkipSort \/ WritePDB \/ WriteTop
+Next == Name \/ SortAtoms \/ SkipSort \/ WritePDB \/ WriteGRO \/ WriteTop
 Spec == Init /\ [][Next]_vars
 
 -----------------------------------------------------------------------------
@@ -156,6 +167,13 @@ KthAtomAgrees == Done => \A j \in DOMAIN mols :
                     /\ \E i \in DOMAIN itps : itps[i].name = Names[j]
                     /\ Len(pdb[j]) = Len(ItpNamed(Names[j]).atoms)
                     /\ \A k \in DOMAIN pdb[j] : pdb[j][k] = ItpNamed(Names[j]).atoms[k]
+
+\* the GRO file has no delimiter: the records of molecule j are the next Len(atoms of its ITP) ones
+KthGroAgrees == Done => gro = ConcatAll([j \in DOMAIN mols |-> ItpNamed(Names[j]).atoms])
+
+\* with deduplication WHICH molecules share a name depends on the molecules only, never on their order in the system
+\* (every permutation of a system is a system of the model); without it nothing is shared
+SharedIffEqual == pc # "name" => \A i, j \in DOMAIN ids : ids[i] = ids[j] <=> (i = j \/ (dedup /\ sys[i] = sys[j]))
 
 Starts == {j \in DOMAIN ids : j = 1 \/ Names[j] # Names[j - 1]}
 NextStart(j) == IF \E s \in Starts : s > j THEN Min({s \in Starts : s > j}) ELSE Len(ids) + 1
